@@ -21,12 +21,13 @@ LEVEL = "translation_validation"
 LEAN = ["SaVerif.Props.C22"]
 META = {
     "text": "Exception-freedom of the whole dynamically typed compiler is not a theorem about any model smaller than the compiler. What is machine-checked: the visitor dispatch table regenerated from the working tree (every Visitable class with a __visit_name__ x the statement, DDL and type compiler of each of the six built-in dialects) never leads to the internal AttributeError branch - either visit_<name> exists or the fallback is an implementation that raises UnsupportedCompilationError (Lean, decide over the regenerated table). Everything else is a seeded compile fuzz of generated Core statements and DDL constructs on all six dialects with option variants, classifying every exception as documented (CompileError, UnsupportedCompilationError, InvalidRequestError, ArgumentError) or internal.",
-    "note": "translation_validation: outside the dispatch table the property is tested, not proved. Known findings: MySQL/MariaDB DDL compiler asserts on DROP CONSTRAINT of an unnamed foreign key (mysql-drop-unnamed-constraint-assertion); see known_findings.d/C22.json for the others found by the fuzz.",
+    "note": "translation_validation: outside the dispatch table the property is tested, not proved. The generator composes features across constructs (row-locking clauses inside scalar subqueries inside upsert SET/WHERE and DML values, DML with multi-table criteria used as CTEs, constraints and indexes over ad-hoc column()/literal_column()/text() members with and without dialect options). A translator-style scan lists every compiler call site passing an explicit keyword next to **kw (TypeError as soon as a caller passes that keyword); a site that is not on the baseline makes the fuzz run with the deep budget. Known findings (keyed exception@module.function): see known_findings.d/C22.json - ten keys, three of them (MySQL FOR UPDATE OF inside ON DUPLICATE KEY UPDATE, MSSQL UPDATE/DELETE..FROM used as a CTE) found through that scan.",
     "technique": "regenerated dispatch table + decide, and a compile fuzz with exception classification on six dialects",
     "design_ref": "DESIGN.md §3 C22",
 }
 
 DIALECTS = ["sqlite", "postgresql", "mysql", "mariadb", "mssql", "oracle"]
+_state = {"new_kw_sites": []}
 KINDS = ["sql", "ddl", "type"]
 
 
@@ -109,6 +110,21 @@ def gen(ctx):
     body.append("end SaVerif.Gen.VisitTable\n")
     ctx.write_gen("VisitTable", "\n".join(body))
     ctx.obligation("translator:visit table covers %d (dialect, kind, name) rows" % len(rows), len(rows) > 1000 and len(fb) == 18, "rows=%d" % len(rows))
+    # call sites `f(x, a=..., **kw)` that raise TypeError as soon as a caller passes `a`: compare with the baseline
+    import json
+    import os
+
+    from harness import vlib
+    from harness.lib_c22_kw import kw_sites
+
+    base = set(json.load(open(os.path.join(vlib.VERIF, "harness", "c22_kw_sites.json")))["sites"])
+    cur = set(kw_sites(os.path.join(vlib.REPO, "lib")))
+    _state["new_kw_sites"] = sorted(cur - base)
+    ctx.obligation(
+        "translator:compiler call sites passing an explicit keyword next to **kw (%d on the baseline tree; new: %s)" % (len(base), ", ".join(_state["new_kw_sites"]) or "none"),
+        True,
+        "a new site is not an error by itself: the compile fuzz runs with the deep budget when there is one",
+    )
 
 
 # ------------------------------------------------------------------ construct generator
@@ -177,6 +193,8 @@ class Gen:
     def num(self, d):
         sa, r = self.sa, self.r
         if d <= 0 or r.random() < 0.3:
+            if d > 0 and r.random() < 0.15:
+                return self.subq_scalar(d - 1)
             return self.col("num") if r.random() < 0.7 else sa.literal(r.choice([1, 2, -7, 3.5]))
         k = r.randint(0, 13)
         a, b = self.num(d - 1), self.num(d - 1)
@@ -259,7 +277,7 @@ class Gen:
         if k == 13: return a.is_(None) if r.random() < 0.5 else a.is_not(None)
         if k == 14: return a.is_distinct_from(b)
         if k == 15: return s.regexp_match("^a", flags=r.choice([None, "i", "m"]))
-        if k == 16: return sa.exists(self.select(d - 1, simple=True))
+        if k == 16: return sa.exists(self.select(d - 1, simple=True)) if r.random() < 0.5 else sa.exists(self.subq_select(d - 1))
         if k == 17: return s.match("word")
         if k == 18: return sa.tuple_(a, b).in_([(1, 2), (3, 4)])
         if k == 19: return a == sa.any_(self.subq_scalar(d - 1)) if r.random() < 0.5 else a > sa.all_(self.subq_scalar(d - 1))
@@ -267,11 +285,54 @@ class Gen:
         if k == 21: return s.endswith(t) | s.icontains("x") | s.istartswith("y")
         return self.t1.c.flag
 
+    def for_update_kw(self):
+        """every FOR UPDATE variant, with all shapes of OF"""
+        sa, r = self.sa, self.r
+        a2 = getattr(self, "_t2alias", None)
+        if a2 is None:
+            a2 = self._t2alias = self.t2.alias("t2a")
+        return dict(
+            nowait=r.random() < 0.25, read=r.random() < 0.25, skip_locked=r.random() < 0.25, key_share=r.random() < 0.2,
+            of=r.choice([None, self.t1, self.t2, self.t2.c.x, self.t1.c.id, [self.t1, self.t2], [self.t2.c.id, self.t2.c.x], a2, [a2.c.x], [self.t1.c.id, self.t2]]),
+        )
+
+    def subq_select(self, d, cols=None):
+        """a SELECT meant to be embedded (scalar subquery, EXISTS, IN, FROM, CTE): features are composed -
+        correlation, row-locking clauses, LIMIT/ORDER BY, DISTINCT, joins, CTE sources, aliases"""
+        sa, r = self.sa, self.r
+        if getattr(self, "_t2alias", None) is None:
+            self._t2alias = self.t2.alias("t2a")
+        src = r.choice([self.t2, self.t2, self._t2alias])
+        stmt = sa.select(*(cols or [src.c.x]))
+        k = r.random()
+        if k < 0.45:
+            stmt = stmt.where(src.c.x > r.randint(0, 3))
+        elif k < 0.75:
+            stmt = stmt.where(src.c.t1_id == self.t1.c.id)  # correlated
+        elif k < 0.85:
+            c0 = sa.select(self.t1.c.id.label("cid")).where(self.t1.c.id > 1).cte("sqc")
+            stmt = stmt.where(src.c.t1_id.in_(sa.select(c0.c.cid)))
+        if r.random() < 0.2:
+            stmt = stmt.join(self.t1, self.t1.c.id == src.c.t1_id, isouter=r.random() < 0.5)
+        if r.random() < 0.35:
+            stmt = stmt.with_for_update(**self.for_update_kw())
+        if r.random() < 0.25:
+            stmt = stmt.order_by(src.c.x.desc()).limit(1)
+        elif r.random() < 0.1:
+            stmt = stmt.limit(1).offset(1)
+        if r.random() < 0.1:
+            stmt = stmt.distinct()
+        if r.random() < 0.1 and d > 0:
+            stmt = stmt.where(sa.exists(self.subq_select(d - 1)))
+        return stmt
+
     def subq_scalar(self, d):
-        return self.sa.select(self.t2.c.x).where(self.t2.c.x > self.r.randint(0, 3)).scalar_subquery()
+        r = self.r
+        st = self.subq_select(d, cols=[self.sa.func.max(self.t2.c.x)] if r.random() < 0.3 else None)
+        return st.scalar_subquery() if r.random() < 0.85 else st.label("sq_lbl")
 
     def subq_scalar_list(self, d):
-        return self.sa.select(self.t2.c.x).where(self.t2.c.id == self.t1.c.id)
+        return self.subq_select(d)
 
     def any_expr(self, d):
         k = self.r.randint(0, 5)
@@ -298,7 +359,10 @@ class Gen:
             stmt = stmt.select_from(self.t1).join(lat, sa.true())
         elif k < 0.5:
             stmt = stmt.select_from(self.t1.tablesample(sa.func.bernoulli(1), name="ts", seed=sa.func.random() if r.random() < 0.3 else None))
-        elif k < 0.55:
+        elif k < 0.6:
+            inner = self.subq_select(d - 1, cols=[self.t2.c.x, self.t2.c.t1_id]).subquery("inn")
+            stmt = stmt.add_columns(inner.c.x).select_from(self.t1.join(inner, inner.c.t1_id == self.t1.c.id))
+        elif k < 0.65:
             v = sa.values(sa.column("a", sa.Integer), sa.column("b", sa.String), name="v").data([(1, "x"), (2, "y")])
             stmt = stmt.add_columns(v.c.a).select_from(v)
         if r.random() < 0.6:
@@ -329,8 +393,7 @@ class Gen:
         elif r.random() < 0.05:
             stmt = stmt.distinct(self.col())
         if r.random() < 0.12:
-            stmt = stmt.with_for_update(nowait=r.random() < 0.3, read=r.random() < 0.3, skip_locked=r.random() < 0.3, key_share=r.random() < 0.2,
-                                        of=r.choice([None, self.t1, self.t1.c.id, [self.t1, self.t2]]))
+            stmt = stmt.with_for_update(**self.for_update_kw())
         if r.random() < 0.06:
             stmt = stmt.prefix_with("SQL_NO_CACHE", dialect=r.choice(["*", "mysql"])).suffix_with("/* s */")
         if r.random() < 0.06:
@@ -377,13 +440,38 @@ class Gen:
         elif k < 0.45:
             c2 = sa.select(self.t2.c.x).cte("c2")
             stmt = sa.delete(self.t1).where(self.t1.c.id.in_(sa.select(c2.c.x)))
+        elif k < 0.62:
+            # DML (multi-table criteria, subquery values, upserts) with RETURNING used AS a CTE
+            join = self.t1.c.id == self.t2.c.t1_id
+            inner = r.choice([
+                lambda: sa.update(self.t1).values(name=self.t2.c.s).where(join),
+                lambda: sa.delete(self.t1).where(join).where(self.t2.c.x > 1),
+                lambda: sa.update(self.t1).values(val=self.subq_scalar(d - 1)).where(sa.exists(self.subq_select(d - 1))),
+                lambda: sa.insert(self.t1).from_select(["id", "name"], self.subq_select(d - 1, cols=[self.t2.c.id, self.t2.c.s])),
+                lambda: sa.delete(self.t2).where(self.t2.c.x.in_(self.subq_select(d - 1))),
+            ])()
+            dcte = inner.returning(self.t1.c.id if inner.table is self.t1 else self.t2.c.id).cte("dml_cte")
+            outer = r.random()
+            if outer < 0.4:
+                stmt = sa.select(dcte)
+            elif outer < 0.7:
+                stmt = sa.insert(self.t2).from_select(["id"], sa.select(dcte.c.id))
+            else:
+                stmt = sa.update(self.t2).values(x=sa.select(sa.func.count()).select_from(dcte).scalar_subquery()).where(self.t2.c.id.in_(sa.select(dcte.c.id)))
         return stmt
 
     def dml(self, d, dialect_name):
         sa, r = self.sa, self.r
         t = r.choice(self.tables)
-        k = r.randint(0, 9)
-        if k == 0:
+        k = r.randint(0, 13)
+        if k >= 12:
+            k = 8  # upserts are a composition hot spot
+        if k == 10:
+            stmt = sa.update(self.t1).values(val=self.subq_scalar(d), name=sa.cast(self.subq_scalar(d - 1), sa.String)).where(sa.exists(self.subq_select(d - 1)))
+        elif k == 11:
+            stmt = sa.insert(self.t1).values(id=self.subq_scalar(d), name=sa.select(self.t2.c.s).where(self.t2.c.id == 1).with_for_update(**self.for_update_kw()).scalar_subquery()) if r.random() < 0.5 \
+                else sa.delete(self.t1).where(self.t1.c.id.in_(self.subq_select(d))).where(self.t1.c.val > self.subq_scalar(d - 1))
+        elif k == 0:
             stmt = sa.insert(t).values({c.name: self.lit() if r.random() < 0.7 else self.num(d - 1) for c in r.sample(list(t.c), r.randint(0, 3))})
         elif k == 1:
             stmt = sa.insert(t).values([{"id": 1}, {"id": 2}]) if r.random() < 0.7 else sa.insert(t)
@@ -400,7 +488,7 @@ class Gen:
         elif k == 7:
             stmt = sa.delete(self.t1).where(self.t1.c.id == self.t2.c.t1_id).where(self.t2.c.x > 3)
         elif k == 8:
-            stmt = self.upsert(dialect_name)
+            stmt = self.upsert(dialect_name, d)
         else:
             stmt = sa.update(t).values(id=sa.bindparam("b_id")).where(t.c.id == sa.bindparam("w_id"))
         if r.random() < 0.35 and hasattr(stmt, "returning"):
@@ -413,26 +501,71 @@ class Gen:
             stmt = stmt.with_hint("WITH (PAGLOCK)", dialect_name="mssql")
         return stmt
 
-    def upsert(self, dialect_name):
+    def upsert(self, dialect_name, d=2):
         sa, r = self.sa, self.r
         which = dialect_name if r.random() < 0.8 else r.choice(["sqlite", "postgresql", "mysql"])
+
+        def val(excluded):
+            k = r.randint(0, 7)
+            if k == 0: return excluded.name
+            if k == 1: return "z"
+            if k == 2: return sa.func.lower(excluded.name)
+            if k == 3: return self.subq_scalar(d)            # scalar subquery (possibly FOR UPDATE OF ...) in SET
+            if k == 4: return sa.case((self.t1.c.id > 1, excluded.name), else_=sa.cast(self.subq_scalar(d), sa.String))
+            if k == 5: return sa.func.coalesce(excluded.name, sa.select(self.t2.c.s).where(self.t2.c.t1_id == self.t1.c.id).limit(1).scalar_subquery())
+            if k == 6: return self.t1.c.name + excluded.name
+            return sa.literal("lit", literal_execute=True)
+
+        def cond(excluded):
+            k = r.randint(0, 6)
+            if k == 0: return None
+            if k == 1: return self.t1.c.name != excluded.name
+            if k == 2: return self.t1.c.id > self.subq_scalar(d)   # scalar subquery in WHERE
+            if k == 3: return sa.exists(self.subq_select(d))
+            if k == 4: return self.t1.c.id.in_(self.subq_select(d))
+            if k == 5: return sa.and_(self.t1.c.val.is_not(None), self.boolean(1))
+            return self.t1.c.id == sa.select(sa.func.min(self.t2.c.x)).with_for_update(of=self.t2).scalar_subquery()
+
         if which in ("sqlite", "postgresql"):
             from sqlalchemy.dialects import postgresql, sqlite
 
-            ins = (sqlite if which == "sqlite" else postgresql).insert(self.t1).values(id=1, name="a")
+            mod = sqlite if which == "sqlite" else postgresql
+            ins = mod.insert(self.t1)
             k = r.random()
-            if k < 0.3:
-                return ins.on_conflict_do_nothing(index_elements=r.choice([None, ["id"], [self.t1.c.id]]))
-            return ins.on_conflict_do_update(
-                index_elements=r.choice([["id"], [self.t1.c.id], ["id", "name"]]),
-                index_where=r.choice([None, self.t1.c.id > 0]),
-                set_=r.choice([{"name": ins.excluded.name}, {"name": "z", "val": self.t1.c.val + 1}, {self.t1.c.name: sa.func.lower(ins.excluded.name)}]),
-                where=r.choice([None, self.t1.c.name != ins.excluded.name]),
-            )
+            if k < 0.6:
+                ins = ins.values(id=1, name="a")
+            elif k < 0.8:
+                ins = ins.values([{"id": 1, "name": "a"}, {"id": 2, "name": "b"}])
+            else:
+                ins = ins.from_select(["id", "name"], sa.select(self.t2.c.id, self.t2.c.s).where(self.t2.c.x > 0))
+            k = r.random()
+            if k < 0.25:
+                kw = r.choice([{}, {"index_elements": ["id"]}, {"index_elements": [self.t1.c.id]}, {"index_elements": ["id"], "index_where": self.t1.c.id > 0}])
+                if which == "postgresql" and r.random() < 0.3:
+                    kw = {"constraint": r.choice(["t1_pkey", self.t1.primary_key])}
+                stmt = ins.on_conflict_do_nothing(**kw)
+            else:
+                kw = dict(
+                    index_elements=r.choice([["id"], [self.t1.c.id], ["id", "name"], [sa.func.lower(self.t1.c.name)] if which == "postgresql" else ["id"]]),
+                    index_where=r.choice([None, None, self.t1.c.id > 0, self.t1.c.name != "x"]),
+                )
+                if which == "postgresql" and r.random() < 0.25:
+                    kw = {"constraint": r.choice(["t1_pkey", self.t1.primary_key])}
+                nset = r.randint(1, 3)
+                keys = r.sample(["name", "val", "flag"], nset)
+                set_ = {}
+                for kname in keys:
+                    v = val(ins.excluded) if kname == "name" else (self.subq_scalar(d) if r.random() < 0.4 else self.num(1)) if kname == "val" else sa.true()
+                    set_[kname if r.random() < 0.7 else self.t1.c[kname]] = v
+                stmt = ins.on_conflict_do_update(set_=set_, where=cond(ins.excluded), **kw)
+            if r.random() < 0.3:
+                stmt = stmt.returning(self.t1.c.id, *([self.subq_scalar(d).label("rs")] if r.random() < 0.3 else []))
+            return stmt
         from sqlalchemy.dialects import mysql
 
         ins = mysql.insert(self.t1).values(id=1, name="a")
-        return ins.on_duplicate_key_update(r.choice([{"name": ins.inserted.name}, {"name": "q", "val": sa.func.values(self.t1.c.val)}, [("name", "a"), ("val", ins.inserted.val + 1)]]))
+        return ins.on_duplicate_key_update(r.choice([{"name": ins.inserted.name}, {"name": "q", "val": sa.func.values(self.t1.c.val)}, [("name", "a"), ("val", ins.inserted.val + 1)],
+                                                     {"val": self.subq_scalar(d)}, {"name": sa.func.concat(ins.inserted.name, self.t1.c.name)}]))
 
     # -- DDL
     def ddl(self, d):
@@ -472,6 +605,8 @@ class Gen:
                 kw["index"] = True
             if r.random() < 0.1:
                 kw["autoincrement"] = r.choice([True, False, "auto"])
+            if r.random() < 0.08:
+                kw.update(r.choice([{"sqlite_on_conflict_unique": "REPLACE", "unique": True}, {"sqlite_on_conflict_not_null": "FAIL"}, {"sqlite_on_conflict_primary_key": "IGNORE"}]))
             cols.append(sa.Column(r.choice(["c%d" % i, "Mixed%d" % i, "select%d" % i if i else "select", "with space %d" % i]), ty, primary_key=(i == 0 and r.random() < 0.7), nullable=r.choice([True, False, None]) if not (i == 0) else True, **kw))
         if not any(c.name == "id" for c in cols):
             cols.append(sa.Column("id", sa.Integer))
@@ -484,6 +619,37 @@ class Gen:
             extra.append(sa.CheckConstraint(r.choice(["id > 0", sa.text("id < 10"), sa.column("id") > 5]), name=r.choice([None, "ck1", "ck with space"])))
         if r.random() < 0.2:
             extra.append(sa.UniqueConstraint(*r.sample(names, min(2, len(names))), name=r.choice([None, "uq1"]), deferrable=r.choice([None, True])))
+
+        def member(lo=0, hi=5):
+            """a constraint / index member: real Column, column name, or an ad-hoc column()/literal_column()/text()"""
+            k = r.randint(lo, hi)
+            if k == 0: return r.choice(cols)
+            if k == 1: return r.choice(names)
+            if k == 2: return sa.column(r.choice(names + ["adhoc"]))
+            if k == 3: return sa.literal_column(r.choice(["id", "lower(id)", "adhoc"]))
+            if k == 4: return sa.column("adhoc", sa.Integer)
+            return sa.text(r.choice(["id", "id DESC"]))
+
+        for _ in range(r.choice([0, 0, 1, 1, 2])):
+            n = r.choice([1, 1, 2, 3])
+            kind = r.randint(0, 3)
+            # PrimaryKeyConstraint only takes Columns / names, UNIQUE also ad-hoc column()/literal_column(); text() only in indexes
+            mem = [member(0, 1) if kind == 1 else member(0, 4) if kind == 0 else member() for _ in range(n)]
+            ckw = r.choice([{}, {}, {}, {"sqlite_on_conflict": "IGNORE"}, {"postgresql_nulls_not_distinct": True}, {"deferrable": True, "initially": "DEFERRED"},
+                            {"postgresql_include": ["id"]}, {"mssql_clustered": True}, {"comment": "uq comment"}])
+            try:
+                if kind == 0:
+                    extra.append(sa.UniqueConstraint(*mem, name=r.choice([None, "uq_adhoc"]), **ckw))
+                elif kind == 1:
+                    extra.append(sa.PrimaryKeyConstraint(*mem, name=r.choice([None, "pk_adhoc"]), **r.choice([{}, {"sqlite_on_conflict": "FAIL"}, {"mssql_clustered": False}, {"postgresql_include": ["id"]}])))
+                elif kind == 2:
+                    extra.append(sa.CheckConstraint(r.choice([sa.column("adhoc") > 1, sa.literal_column("id") != 3, sa.text("id > 2")]), name=r.choice([None, "ck_adhoc"]),
+                                                    **r.choice([{}, {"sqlite_on_conflict": "ROLLBACK"}, {"postgresql_not_valid": True}])))
+                else:
+                    self._pending_index = (mem, r.choice([{}, {"unique": True}, {"sqlite_where": sa.column("adhoc") > 1}, {"postgresql_where": sa.literal_column("id") > 1},
+                                                          {"mysql_length": 4}, {"mssql_include": ["id"]}, {"postgresql_using": "btree"}, {"oracle_compress": 1}]))
+            except Exception:
+                pass
         tkw = {}
         if r.random() < 0.15:
             tkw["comment"] = r.choice(["tbl comment", "it's"])
@@ -496,7 +662,16 @@ class Gen:
                                  {"sqlite_with_rowid": False}, {"postgresql_inherits": "par"}, {"mariadb_engine": "Aria"}, {"sqlite_strict": True}, {"postgresql_with_oids": False}, {"mssql_x": 1} if False else {"mysql_row_format": "DYNAMIC"}]))
         t = sa.Table(r.choice(["tb", "MixedTb", "order", "tb with space"]), m, *(cols + extra), **tkw)
         ix = None
-        if r.random() < 0.5:
+        pend = getattr(self, "_pending_index", None)
+        self._pending_index = None
+        if pend is not None:
+            try:
+                ix = sa.Index(r.choice(["ix_adhoc", None]), *pend[0], **pend[1])
+                if ix.table is None and r.random() < 0.7:
+                    t.append_constraint(ix)
+            except Exception:
+                ix = None
+        elif r.random() < 0.5:
             ikw = r.choice([{}, {}, {"unique": True}, {"postgresql_using": "gin"}, {"postgresql_where": t.c.id > 5}, {"sqlite_where": t.c.id > 5}, {"mysql_length": 5}, {"mysql_prefix": "FULLTEXT"}, {"mssql_clustered": True},
                             {"mssql_include": ["id"]}, {"oracle_bitmap": True}, {"postgresql_include": ["id"]}, {"postgresql_concurrently": True}, {"postgresql_ops": {"id": "int4_ops"}}, {"mssql_where": t.c.id > 1}, {"mysql_using": "hash"},
                             {"postgresql_nulls_not_distinct": True}, {"mariadb_length": {"id": 3}}])
@@ -585,11 +760,23 @@ def dialect_variant(name, rng):
         if v is not None:
             d.server_version_info = v
             desc.append("server_version=%s" % (v,))
+            # the flags Dialect.initialize() derives from the server version
+            try:
+                d._casing = 0
+                (d._initialize_mariadb if d.is_mariadb else d._initialize_mysql)(None)
+            except Exception:
+                pass
     elif name == "postgresql":
-        v = rng.choice([None, (9, 4), (9, 6), (10,), (12,), (14,), (16,)])
+        v = rng.choice([None, (9, 4), (9, 6), (10,), (12,), (14,), (16,), (18,)])
         if v is not None:
             d.server_version_info = v
             desc.append("server_version=%s" % (v,))
+            d.supports_smallserial = v >= (9, 2)
+            d._supports_drop_index_concurrently = v >= (9, 2)
+            d.supports_identity_columns = v >= (10,)
+            d._supports_jsonb_subscripting = v >= (14,)
+            if hasattr(d, "supports_virtual_generated_columns"):
+                d.supports_virtual_generated_columns = v >= (18,)
     elif name == "sqlite":
         if rng.random() < 0.3:
             d.server_version_info = rng.choice([(3, 7, 16), (3, 24, 0), (3, 35, 0)])
@@ -614,7 +801,9 @@ def compile_one(gen_seed, dialect_name):
     from sqlalchemy import exc
 
     vr = random.Random("c22v:%s:%s" % (gen_seed, dialect_name))
-    d, vdesc = dialect_variant(dialect_name, vr)
+    with warnings.catch_warnings():
+        warnings.simplefilter("ignore")
+        d, vdesc = dialect_variant(dialect_name, vr)
     ck = vr.choice([{}, {}, {}, {"literal_binds": True}, {"render_postcompile": True}, {"literal_binds": True, "render_postcompile": True}])
     with warnings.catch_warnings():
         warnings.simplefilter("ignore")
@@ -713,10 +902,13 @@ def run(ctx, deep=False):
     if ctx.driver_ok():
         ctx.correspond("corr/c22:visitor-dispatch-vs-Model.Visit", cases, impl, ctx.driver(reqs))
     # ---- compile fuzz
-    n = 6000 if thorough else 900
+    risky = bool(_state.get("new_kw_sites"))
+    if risky:
+        ctx.assumptions.append("new explicit-keyword-next-to-**kw call sites: %s - deep fuzz budget" % ", ".join(_state["new_kw_sites"]))
+    n = 6000 if (thorough or risky) else 900
     for k in range(n):
         gs = "%s:%d" % (ctx.seed, k) if not deep else "%s:d%d" % (ctx.seed, k)
-        for dn in (DIALECTS if (thorough or k % 3 == 0) else [rng.choice(DIALECTS)]):
+        for dn in (DIALECTS if (thorough or risky or k % 3 == 0) else [rng.choice(DIALECTS)]):
             kind, variant, outcome, detail = compile_one(gs, dn)
             ctx.case((gs, dn), nontrivial=outcome != "rejected-by-constructor")
             ctx.count("kind=" + kind)
